@@ -994,7 +994,7 @@ def list_insert(collection, position, value):
     """
     copy = list(collection)
     copy.insert(position, value)
-    return copy
+    return tuple(copy)
 
 
 @specs.method
